@@ -229,7 +229,9 @@ int trie_get_children(const struct trie_node *root_node, struct trie_node ***arr
 	return 0;
 
 err:
+	/* every recursion level passes here on its way out: release only once */
 	lrtr_free(*array);
+	*array = NULL;
 	return -1;
 }
 
